@@ -16,18 +16,31 @@ namespace IsoMdl.Honest
 open IsoMdl IsoMdl.Session IsoMdl.Disclosure IsoMdl.ReaderAuth
 
 /-- EVERY MESSAGE DECRYPTS, IN EVERY ROUND: from roles in step (in particular right after session
-establishment), for ANY number of rounds each with any non-empty set of documents, the device
-accepts every request and the reader accepts every response, which has status 0 and pairs every
-prepared document with the signature made for it. -/
-theorem C01_every_round_accepted (xs : List RoundIn) (hx : ∀ x ∈ xs, x.Ok) (d : Device) (r : Reader) (hs : InStep d r) :
-    rounds d r xs = xs.map fun x => (Session.Outcome.accepted .request, some (Session.Outcome.accepted (.response 0 (pairsOf x.docs x.sigs)))) := by
+establishment), for ANY number of rounds that fits the 32-bit message counters, each with any
+non-empty set of documents, the device accepts every request and the reader accepts every
+response, which has status 0 and pairs every prepared document with the signature made for it. -/
+theorem C01_every_round_accepted (xs : List RoundIn) (hx : ∀ x ∈ xs, x.Ok) (d : Device) (r : Reader) (hs : InStep d r)
+    (hroom : Room d r xs.length) :
+    rounds d r xs = xs.map fun x => (some (Session.Outcome.accepted .request), some (Session.Outcome.accepted (.response 0 (pairsOf x.docs x.sigs)))) := by
   induction xs generalizing d r with
   | nil => rfl
   | cons x xs ih =>
     obtain ⟨hne, hl⟩ := hx x List.mem_cons_self
-    obtain ⟨d', r', hr, hs'⟩ := round_ok d r x.docs x.sigs hs hne hl
+    obtain ⟨d', r', hr, hs', hroom'⟩ := round_ok d r x.docs x.sigs hs xs.length (by simpa using hroom) hne hl
     simp only [rounds, hr, List.map_cons]
-    rw [ih (fun y hy => hx y (List.mem_cons_of_mem _ hy)) d' r' hs']
+    rw [ih (fun y hy => hx y (List.mem_cons_of_mem _ hy)) d' r' hs' hroom']
+
+/-- in particular: every session of fewer than 2^32 - 1 rounds after establishment -/
+theorem C01_every_round_accepted_established (s : Nat) (xs : List RoundIn) (hx : ∀ x ∈ xs, x.Ok)
+    (hlen : xs.length + 1 < 2^32) :
+    rounds (World.established s).dev (World.established s).rdr xs =
+      xs.map fun x => (some (Session.Outcome.accepted .request), some (Session.Outcome.accepted (.response 0 (pairsOf x.docs x.sigs)))) := by
+  apply C01_every_round_accepted xs hx _ _ ⟨rfl, rfl, rfl, rfl⟩
+  constructor
+  · show (1 : UInt32).toNat + xs.length < 2^32
+    simp; omega
+  · show (0 : UInt32).toNat + xs.length < 2^32
+    simp; omega
 
 /-- the state right after establishment is in step, and the first response (to the request that
 travelled inside the SessionEstablishment) is accepted as well -/
@@ -41,7 +54,7 @@ theorem C01_first_response_accepted (s : Nat) (x : RoundIn) (hx : x.Ok) :
     cases h : x.docs with
     | nil => exact absurd h hne
     | cons a t => exact ⟨t.length, by simp⟩
-  refine ⟨_, _, answer_ok n _ _ x.docs x.sigs hn hl rfl rfl, ?_⟩
+  refine ⟨_, _, answer_ok n _ _ x.docs x.sigs hn hl rfl rfl rfl, ?_⟩
   simp [InStep, World.established]
 
 /-- EXACTLY THE AGREED DATA: in the response to a request, an item of a held, signable document is
@@ -124,8 +137,8 @@ theorem C01_same_keys (zDev zRdr tDev tRdr : Bytes) (hz : zDev = zRdr) (ht : tDe
 
 /-! non-vacuity -/
 example : rounds (World.established 7).dev (World.established 7).rdr [⟨[1, 2], [10, 20]⟩, ⟨[1], [30]⟩] =
-    [(.accepted .request, some (.accepted (.response 0 [(2, 10), (1, 20)]))),
-     (.accepted .request, some (.accepted (.response 0 [(1, 30)])))] := by decide
+    [(some (.accepted .request), some (.accepted (.response 0 [(2, 10), (1, 20)]))),
+     (some (.accepted .request), some (.accepted (.response 0 [(1, 30)])))] := by decide
 example : handleResponse honest = ⟨.valid, .valid, [], true⟩ := by decide
 
 end IsoMdl.Honest
